@@ -33,6 +33,10 @@ def cases(tier, rng):
         yield "shape", c
     for _ in range(6000 if thorough else 700):
         yield "rnd", genmeta.random_history(rng, max_classes=9 if thorough else 6, p_inv=0.7)
+    for c in genmeta.late_shapes():
+        yield "late-decoration-shapes", c
+    for _ in range(4000 if thorough else 500):
+        yield "rnd-late-decorations", genmeta.random_history(rng, max_classes=6, p_inv=0.4, late=True)
 
 
 def search_cases(rng, hint, n):
@@ -181,6 +185,18 @@ def spec(case, mos, io):
                 continue
             if op["op"] == "inv" and op["k"] in mro.get(k, [k]):
                 continue            # decorating a class legitimately strengthens it and its descendants
+            if op["op"] in ("pre", "post", "snap") and c != before[k]:
+                # a late decoration of a member of class K: the classes that resolve that member to K's own function
+                # (K itself and descendants that do not override it) see it; nobody else does
+                owner = _owner_of(ops, op["f"])
+                if owner is not None:
+                    K, key = owner
+                    declared = dict((o["k"], set(kk for kk, _m in o["ns"])) for o in ops if o["op"] == "class")
+                    prov = next((a for a in mro.get(k, [k]) if key in declared.get(a, ())), None)
+                    if prov == K:
+                        strip = lambda cc: {**cc, "members": [mm for mm in cc["members"] if mm[0] != key]}  # noqa: E731
+                        if strip(c) == strip(before[k]):
+                            continue
             if c != before[k]:
                 fails.append("step %d (%s %s): contracts of the earlier class %d changed from %s to %s"
                              % (i, op["op"], op["k"] or op["f"], k, before[k], c))
@@ -192,6 +208,17 @@ def spec(case, mos, io):
             fails.append("class %s member %s with contract %s false: the class's own contracts say %s, the real call %s - "
                          "another class's definition or use changed its verdict" % (mm["class"], mm["member"], mm["false"], mm["by_hand"], mm["real"]))
     return fails
+
+
+def _owner_of(ops, f):
+    for o in ops:
+        if o["op"] == "class":
+            for key, m in o["ns"]:
+                if isinstance(m, dict):
+                    kind = next(iter(m))
+                    if kind in ("func", "static", "classm") and m[kind]["f"] == f:
+                        return o["k"], key
+    return None
 
 
 def classify(case, mos, io, fails):
